@@ -162,6 +162,10 @@ def run(ctx, replay=None):
                 if again[f][ln - 1] != obs_line:
                     raise Machinery("re-execution observed something different for %s" % sig)
                 obs = json.loads(obs_line)
+                if obs["k"] == "mgself":
+                    # not driven by a case file: the recorder makes this observation on every run
+                    g["record"] = {"case": {"queries": [], "multigets": [], "invalid": [], "conc": conc, "zone": zone}, "observed": obs}
+                    continue
                 kf = kindfile[obs["k"]]
                 if fdir[f] not in casesof:
                     casesof[fdir[f]] = {n: vlib.read_ndjson(fdir[f] + "/" + n + ".ndjson") for n in ("queries", "multigets", "invalid")}
